@@ -27,6 +27,7 @@ use serde_json::{json, Value};
 use starky::config::StarkConfig;
 use starky::constraint_consumer::{ConstraintConsumer, RecursiveConstraintConsumer};
 use starky::evaluation_frame::{StarkEvaluationFrame, StarkFrame};
+use starky::lookup::{Column, Filter, Lookup};
 use starky::proof::StarkProofWithPublicInputs;
 use starky::prover::prove;
 use starky::recursive_verifier::{add_virtual_stark_proof_with_pis, set_stark_proof_with_pis_target, verify_stark_proof_circuit};
@@ -72,7 +73,7 @@ impl Chain {
     }
 }
 fn to_polys(rows: &[Vec<F>]) -> Vec<PolynomialValues<F>> {
-    (0..COLS).map(|c| PolynomialValues::new(rows.iter().map(|r| r[c]).collect())).collect()
+    (0..rows[0].len()).map(|c| PolynomialValues::new(rows.iter().map(|r| r[c]).collect())).collect()
 }
 
 impl Stark<F, D> for Chain {
@@ -131,6 +132,156 @@ impl Stark<F, D> for Chain {
 
     fn constraint_degree(&self) -> usize {
         self.d
+    }
+}
+
+/// a member of the STARK family of this check
+trait Member: Stark<F, D> + Copy {
+    /// a satisfying trace of n rows and its public inputs
+    fn gen(&self, n: usize, r: &mut ChaCha8Rng) -> (Vec<Vec<F>>, Vec<F>);
+    /// a cell of a looking column (members with lookups)
+    fn lookup_cell(&self, n: usize, r: &mut ChaCha8Rng) -> (usize, usize) {
+        (r.gen_range(0..n), 0)
+    }
+    fn describe(&self) -> Value;
+}
+impl Member for Chain {
+    fn gen(&self, n: usize, r: &mut ChaCha8Rng) -> (Vec<Vec<F>>, Vec<F>) {
+        let (rows, pis) = self.trace(n, F::from_canonical_u64(r.gen_range(0..P)), F::from_canonical_u64(r.gen_range(0..P)));
+        (rows, pis.to_vec())
+    }
+    fn describe(&self) -> Value {
+        json!({"chain_degree": self.d})
+    }
+}
+
+// ------------------------------------------------------------------------------------------
+// members with a logUp lookup: every circuit-side column / filter evaluator with a native twin
+//   columns: 0 a, 1 b (looking data, small), 2 t (table: t_i = i), 3 f (frequencies), 4 flt, 5 g (0/1 filters),
+//            6 pw = a^d (the one ordinary constraint, degree d), 7 unused
+//   variant 0  looking single(a)
+//           1  looking single_next_row(a)
+//           2  looking linear_combination(a + 2b), filter = flt
+//           3  looking linear_combination_and_next_row(a + b' + 1), filter = flt * g (a product)
+//           4  looking single(a) and single_next_row(b), the second filtered by flt on the NEXT row
+//           5  looking single(a), table declared on the next row
+// ------------------------------------------------------------------------------------------
+#[derive(Clone, Copy, Debug)]
+struct Lk {
+    variant: usize,
+    d: usize,
+}
+const LCOLS: usize = 8;
+
+impl Lk {
+    fn looking(&self) -> Vec<Column<F>> {
+        match self.variant {
+            0 | 5 => vec![Column::single(0)],
+            1 => vec![Column::single_next_row(0)],
+            2 => vec![Column::linear_combination([(0, F::ONE), (1, F::TWO)])],
+            3 => vec![Column::linear_combination_and_next_row_with_constant([(0, F::ONE)], [(1, F::ONE)], F::ONE)],
+            _ => vec![Column::single(0), Column::single_next_row(1)],
+        }
+    }
+    fn filters(&self) -> Vec<Filter<F>> {
+        match self.variant {
+            2 => vec![Filter::new_simple(Column::single(4))],
+            3 => vec![Filter::new(vec![(Column::single(4), Column::single(5))], vec![])],
+            4 => vec![Filter::default(), Filter::new_simple(Column::single_next_row(4))],
+            _ => vec![Filter::default()],
+        }
+    }
+    fn table(&self) -> Column<F> {
+        if self.variant == 5 {
+            Column::single_next_row(2)
+        } else {
+            Column::single(2)
+        }
+    }
+    /// (value looked up, filter value) per looking column at row i
+    fn looked(&self, rows: &[Vec<u64>], i: usize) -> Vec<(u64, u64)> {
+        let n = rows.len();
+        let nx = (i + 1) % n;
+        match self.variant {
+            0 | 5 => vec![(rows[i][0], 1)],
+            1 => vec![(rows[nx][0], 1)],
+            2 => vec![(rows[i][0] + 2 * rows[i][1], rows[i][4])],
+            3 => vec![(rows[i][0] + rows[nx][1] + 1, rows[i][4] * rows[i][5])],
+            _ => vec![(rows[i][0], 1), (rows[nx][1], rows[nx][4])],
+        }
+    }
+    fn has_next_row_column(&self) -> bool {
+        matches!(self.variant, 1 | 3 | 4 | 5)
+    }
+}
+
+impl Member for Lk {
+    fn gen(&self, n: usize, r: &mut ChaCha8Rng) -> (Vec<Vec<F>>, Vec<F>) {
+        let small = (n / 4).max(1) as u64;
+        let mut rows: Vec<Vec<u64>> = (0..n)
+            .map(|i| vec![r.gen_range(0..small), r.gen_range(0..small), i as u64, 0, r.gen_range(0..2), r.gen_range(0..2), 0, r.gen_range(0..1000)])
+            .collect();
+        // frequencies: at row j the multiplicity of the table value of row j among the (filtered) looked values
+        let mut count = vec![0u64; n];
+        for i in 0..n {
+            for (v, f) in self.looked(&rows, i) {
+                count[v as usize] += f;
+            }
+        }
+        for j in 0..n {
+            let tv = if self.variant == 5 { rows[(j + 1) % n][2] } else { rows[j][2] };
+            rows[j][3] = count[tv as usize];
+        }
+        let out = rows
+            .iter()
+            .map(|row| {
+                let mut v: Vec<F> = row.iter().map(|x| F::from_canonical_u64(*x)).collect();
+                let a = v[0];
+                v[6] = if self.d == 2 { a * a } else { a * a * a };
+                v
+            })
+            .collect();
+        (out, vec![])
+    }
+    fn lookup_cell(&self, n: usize, r: &mut ChaCha8Rng) -> (usize, usize) {
+        // a cell of a looking column (column b for the members whose next-row part reads b)
+        (r.gen_range(0..n), if matches!(self.variant, 3 | 4) && r.gen_bool(0.5) { 1 } else { 0 })
+    }
+    fn describe(&self) -> Value {
+        json!({"lookup_variant": self.variant, "degree": self.d, "next_row_column": self.has_next_row_column(),
+               "filter": matches!(self.variant, 2 | 3 | 4), "product_filter": self.variant == 3})
+    }
+}
+
+impl Stark<F, D> for Lk {
+    type EvaluationFrame<FE2, P, const D2: usize>
+        = StarkFrame<P, P::Scalar, LCOLS, 0>
+    where
+        FE2: FieldExtension<D2, BaseField = F>,
+        P: PackedField<Scalar = FE2>;
+    type EvaluationFrameTarget = StarkFrame<ExtensionTarget<D>, ExtensionTarget<D>, LCOLS, 0>;
+
+    fn eval_packed_generic<FE2, P, const D2: usize>(&self, vars: &Self::EvaluationFrame<FE2, P, D2>, yc: &mut ConstraintConsumer<P>)
+    where
+        FE2: FieldExtension<D2, BaseField = F>,
+        P: PackedField<Scalar = FE2>,
+    {
+        let l = vars.get_local_values();
+        let pw = if self.d == 2 { l[0] * l[0] } else { l[0] * l[0] * l[0] };
+        yc.constraint(l[6] - pw);
+    }
+    fn eval_ext_circuit(&self, b: &mut CircuitBuilder<F, D>, vars: &Self::EvaluationFrameTarget, yc: &mut RecursiveConstraintConsumer<F, D>) {
+        let l = vars.get_local_values();
+        let sq = b.mul_extension(l[0], l[0]);
+        let pw = if self.d == 2 { sq } else { b.mul_extension(sq, l[0]) };
+        let c = b.sub_extension(l[6], pw);
+        yc.constraint(b, c);
+    }
+    fn constraint_degree(&self) -> usize {
+        self.d
+    }
+    fn lookups(&self) -> Vec<Lookup<F>> {
+        vec![Lookup { columns: self.looking(), table_column: self.table(), frequencies_column: Column::single(3), filter_columns: self.filters() }]
     }
 }
 
@@ -251,6 +402,9 @@ fn tamper_at(p: &mut SP, class: &str, real_layer: Option<usize>, r: &mut ChaCha8
         }
         "trace_cap" => return bump_cap(&mut p.proof.trace_cap, r),
         "quot_cap" => return bump_cap(p.proof.quotient_polys_cap.as_mut()?, r),
+        "aux_cap" => return bump_cap(p.proof.auxiliary_polys_cap.as_mut()?, r),
+        "op_aux" => return bump_ext(p.proof.openings.auxiliary_polys.as_mut()?, r),
+        "op_aux_next" => return bump_ext(p.proof.openings.auxiliary_polys_next.as_mut()?, r),
         "op_local" => return bump_ext(&mut p.proof.openings.local_values, r),
         "op_next" => return bump_ext(&mut p.proof.openings.next_values, r),
         "op_quot" => return bump_ext(p.proof.openings.quotient_polys.as_mut()?, r),
@@ -378,11 +532,11 @@ fn shape_tamper(p: &mut SP, list: &str, surplus: bool, r: &mut ChaCha8Rng) -> Op
     }
 }
 
-fn prove_with(stark: Chain, cfg: &StarkConfig, rows: &[Vec<F>], pis: &[F], vparams: Option<FriParams>, k: Option<Knobs>) -> Result<SP, String> {
+fn prove_with<S: Member>(stark: S, cfg: &StarkConfig, rows: &[Vec<F>], pis: &[F], vparams: Option<FriParams>, k: Option<Knobs>) -> Result<SP, String> {
     if let Some(k) = k {
         verif_knobs::set(k);
     }
-    let r = guarded(|| prove::<F, C, Chain, D>(stark, cfg, to_polys(rows), pis, vparams, &mut TimingTree::default()));
+    let r = guarded(|| prove::<F, C, S, D>(stark, cfg, to_polys(rows), pis, vparams, &mut TimingTree::default()));
     verif_knobs::clear();
     match r {
         Ok(Ok(p)) => Ok(p),
@@ -391,14 +545,14 @@ fn prove_with(stark: Chain, cfg: &StarkConfig, rows: &[Vec<F>], pis: &[F], vpara
     }
 }
 
-fn pow_response(stark: Chain, p: &SP, cfg: &StarkConfig, vparams: Option<FriParams>) -> u64 {
+fn pow_response<S: Member>(stark: S, p: &SP, cfg: &StarkConfig, vparams: Option<FriParams>) -> u64 {
     use plonky2::field::types::PrimeField64;
     let mut ch = plonky2::iop::challenger::Challenger::<F, H>::new();
     p.get_challenges(&stark, &mut ch, None, None, false, cfg, vparams).fri_challenges.fri_pow_response.to_canonical_u64()
 }
 
-fn native(stark: Chain, p: &SP, cfg: &StarkConfig, vparams: Option<FriParams>) -> (bool, String) {
-    match guarded(|| verify_stark_proof::<F, C, Chain, D>(stark, p.clone(), cfg, vparams)) {
+fn native<S: Member>(stark: S, p: &SP, cfg: &StarkConfig, vparams: Option<FriParams>) -> (bool, String) {
+    match guarded(|| verify_stark_proof::<F, C, S, D>(stark, p.clone(), cfg, vparams)) {
         Ok(Ok(())) => (true, String::new()),
         Ok(Err(e)) => (false, format!("{e:#}").chars().take(120).collect()),
         Err(pn) => (false, format!("panic: {pn}").chars().take(120).collect()),
@@ -406,10 +560,18 @@ fn native(stark: Chain, p: &SP, cfg: &StarkConfig, vparams: Option<FriParams>) -
 }
 
 fn run_scenario(s: &Value, selftest_all: bool) -> Vec<Value> {
+    let d = s["d"].as_u64().unwrap_or(2) as usize;
+    if s["family"].as_str() == Some("lk") {
+        run_member(s, Lk { variant: s["variant"].as_u64().unwrap_or(0) as usize, d }, selftest_all)
+    } else {
+        run_member(s, Chain { d }, selftest_all)
+    }
+}
+
+fn run_member<S: Member>(s: &Value, stark: S, selftest_all: bool) -> Vec<Value> {
     let id = s["id"].as_str().unwrap_or("?").to_string();
     let mut out = vec![];
     let mut r = rng_for(&id, 11);
-    let stark = Chain { d: s["d"].as_u64().unwrap_or(2) as usize };
     let cfg = stark_config(&s["cfg"]);
     let var = s["mode"].as_str() == Some("var");
     let maxdb = s["maxdb"].as_u64().unwrap() as usize;
@@ -424,7 +586,7 @@ fn run_scenario(s: &Value, selftest_all: bool) -> Vec<Value> {
         let mut b = CircuitBuilder::<F, D>::new(CircuitConfig::standard_recursion_config());
         let zero = b.zero();
         let pt = add_virtual_stark_proof_with_pis(&mut b, &stark, &cfg, maxdb, 0, 0);
-        verify_stark_proof_circuit::<F, C, Chain, D>(&mut b, stark, pt.clone(), &cfg, if var { Some(mindb) } else { None });
+        verify_stark_proof_circuit::<F, C, S, D>(&mut b, stark, pt.clone(), &cfg, if var { Some(mindb) } else { None });
         b.register_public_inputs(&pt.public_inputs);
         let data: CircuitData<F, C, D> = b.build::<C>();
         (data, pt, zero)
@@ -434,7 +596,7 @@ fn run_scenario(s: &Value, selftest_all: bool) -> Vec<Value> {
         Err(p) => return vec![json!({"id": id, "skipped": format!("circuit build panic: {}", p.chars().take(160).collect::<String>())})],
     };
     let constants = oracle::constants_by_row(&outer.prover_only, &outer.common);
-    out.push(json!({"id": id, "shape": {"mode": s["mode"], "d": stark.d, "maxdb": maxdb, "mindb": mindb, "outer_degree_bits": outer.common.degree_bits(),
+    out.push(json!({"id": id, "shape": {"mode": s["mode"], "d": stark.constraint_degree(), "family": s["family"], "member": stark.describe(), "maxdb": maxdb, "mindb": mindb, "outer_degree_bits": outer.common.degree_bits(),
         "build_ms": t0.elapsed().as_millis() as u64, "binding_bits": cfg.fri_config.num_query_rounds * cfg.fri_config.rate_bits + cfg.fri_config.proof_of_work_bits as usize,
         "circuit_layers": cfg.fri_params(maxdb).reduction_arity_bits}}));
     let accept = |p: &SP| -> (bool, bool, &'static str, String) {
@@ -460,7 +622,7 @@ fn run_scenario(s: &Value, selftest_all: bool) -> Vec<Value> {
     let mut sampled = 0usize;
     for &db in &dbs {
         let n = 1usize << db;
-        let (rows, pis) = stark.trace(n, F::from_canonical_u64(r.gen_range(0..P)), F::from_canonical_u64(r.gen_range(0..P)));
+        let (rows, pis) = stark.gen(n, &mut r);
         let honest = match prove_with(stark, &cfg, &rows, &pis, vparams.clone(), None) {
             Ok(p) => p,
             Err(e) => {
@@ -486,11 +648,11 @@ fn run_scenario(s: &Value, selftest_all: bool) -> Vec<Value> {
             let mut cases: Vec<(SP, Value)> = vec![];
             match split_class(c).0 {
                 "none" => cases.push((honest.clone(), json!({}))),
-                "corrupt_trace" => {
+                "corrupt_trace" | "corrupt_lookup" => {
                     for _ in 0..per_class {
                         let mut rows2 = rows.clone();
-                        let (i, j) = (r.gen_range(0..n), r.gen_range(0..COLS));
-                        rows2[i][j] += F::from_canonical_u64(1 + r.gen_range(0..1000u64));
+                        let (i, j) = if c == "corrupt_lookup" { stark.lookup_cell(n, &mut r) } else { (r.gen_range(0..n), r.gen_range(0..rows[0].len())) };
+                        rows2[i][j] += F::from_canonical_u64(1 + if c == "corrupt_lookup" { 0 } else { r.gen_range(0..1000u64) });
                         let mut k = Knobs::default();
                         k.lenient_trim = true;
                         if let Ok(p) = prove_with(stark, &cfg, &rows2, &pis, vparams.clone(), Some(k)) {
@@ -609,7 +771,7 @@ fn run_scenario(s: &Value, selftest_all: bool) -> Vec<Value> {
     // lengths the model lists as not assignable (final polynomial longer than the circuit's): recorded, nothing asserted
     for db in s["unsupported"].as_array().cloned().unwrap_or_default() {
         let db = db.as_u64().unwrap() as usize;
-        let (rows, pis) = stark.trace(1 << db, F::ONE, F::TWO);
+        let (rows, pis) = stark.gen(1 << db, &mut r);
         if let Ok(p) = prove_with(stark, &cfg, &rows, &pis, vparams.clone(), None) {
             let (nat, nd) = native(stark, &p, &cfg, vparams.clone());
             let (assignable, acc, stage, detail) = accept(&p);
